@@ -146,7 +146,7 @@ def run(ctx):
     d = os.path.join(ctx.work.path, "spec")
     os.makedirs(d, exist_ok=True)
     shutil.copy(os.path.join(SPEC, "Indent.tla"), d)
-    n, dep = (9, 3) if quick else (12, 4)
+    n, dep = (10, 3) if quick else (12, 4)
     open(os.path.join(d, "IndentGen.cfg"), "w").write("SPECIFICATION Spec\nCONSTANTS\n  MaxLines = %d\n  MaxDepth = %d\n  Emit = TRUE\nINVARIANTS EmitProg\nCHECK_DEADLOCK FALSE\n" % (n, dep))
     rg = tlc_retry("Indent", "IndentGen", cwd=d, workers=1, timeout=3000, xmx="8g")
     if rg.error:
@@ -167,8 +167,19 @@ def run(ctx):
     tmp = ctx.work.sub("c18")
     jobs = []
     if quick:
+        # every pair of adjacent line kinds the grammar derives is kept (three programs each), the rest is a seeded slice
         ctx.rng.shuffle(progs)
-        progs = sorted(progs[:420], key=len)
+        need, keep, rest = {}, [], []
+        for p in sorted(progs, key=len):
+            bg = {(p[k], p[k + 1]) for k in range(len(p) - 1)}
+            if any(need.get(b, 0) < 3 for b in bg):
+                keep.append(p)
+                for b in bg:
+                    need[b] = need.get(b, 0) + 1
+            else:
+                rest.append(p)
+        ctx.cov["adjacent_kind_pairs_covered"] = len(need)
+        progs = sorted(keep + rest[:max(0, 450 - len(keep))], key=len)
     for i, p in enumerate(progs):
         for rep in range(2 if quick else 3):
             ic = ctx.rng.choice([1, 2, 3, 4, 4, 8, 5])
